@@ -34,6 +34,9 @@ UNIVERSES = {
     # ints and floats within one argument; tuples as values
     "mixnum": (["a", "b"], [[1, 2.5, 3, 0.5], ["y"]]),
     "tupval": (["s", "b"], [[(2, 3), (1, 4)], [20, 10]]),
+    # an argument whose values cannot be ordered, before one whose set
+    # iteration order is not ascending (used by C03)
+    "cplx": (["cz", "cx"], [[1j, 2j, 3j], [0.5, 0.25, 2.5, 7.0, -1.0]]),
     "2x2x2x2": (["d", "a", "c", "b"], [[1, 2], [4, 3], ["u", "v"], [0.5, 0.25]]),
 }
 KINDS = ["num", "bool", "str", "tuple2", "list", "array", "dict", "dataset",
